@@ -23,7 +23,7 @@
 From Coq Require Import QArith Qcanon List String Bool.
 Import ListNotations.
 From S2 Require Import Base.Num Base.Arr Model.Expr Model.Struct Model.Rates Model.Solvers Spec.RatesSpec
-     Proofs.NumQc Proofs.BuildProofs Proofs.CopiesProofs Proofs.AggregateProofs Proofs.InvarianceProofs Proofs.Assembly Proofs.SameKeys Proofs.AgeAssembly Proofs.TimeShift Proofs.Scaling Proofs.AggregateRates Proofs.AggregateModel Proofs.AggregateTotals Proofs.AggregateAll Proofs.RatesBridge Proofs.AggregateFinal Proofs.AggregateTraj Proofs.AgeZero Proofs.AggregateClosed Proofs.FoiProofs Proofs.FoiAggregate Proofs.FoiBridge Proofs.FoiModel Proofs.AggregateInf Proofs.RatesBridgeInf Proofs.AggregateFinalInf Proofs.RunExt Model.Program Props.Examples.
+     Proofs.NumQc Proofs.BuildProofs Proofs.CopiesProofs Proofs.AggregateProofs Proofs.InvarianceProofs Proofs.Assembly Proofs.SameKeys Proofs.AgeAssembly Proofs.TimeShift Proofs.Scaling Proofs.AggregateRates Proofs.AggregateModel Proofs.AggregateTotals Proofs.AggregateAll Proofs.RatesBridge Proofs.AggregateFinal Proofs.AggregateTraj Proofs.AgeZero Proofs.AggregateClosed Proofs.FoiProofs Proofs.FoiAggregate Proofs.FoiBridge Proofs.FoiModel Proofs.AggregateInf Proofs.RatesBridgeInf Proofs.AggregateFinalInf Proofs.AggregateTrajInf Proofs.RunExt Model.Program Props.Examples.
 
 (* the copies of an unadjusted stratification carry the parent's weight, or the parent's weight
    divided by the number of strata for entry flows, destination-only stratified transitions
@@ -276,6 +276,31 @@ Theorem C03_comp_rates_aggregate_all_partial :
       = nth i (get_comp_rates O m b p t (aggx O (normalise_strat s0) (m_comps m) x')) (f0 O).
 Proof. intros O T. exact (stratified_comp_rates_aggregate_all O T). Qed.
 Print Assumptions C03_comp_rates_aggregate_all_partial.
+
+(* ... and along whole Euler runs of models with infection flows (any step, start time and number of steps; the domain
+   of C05_multiplier is structural, so it is asked of every time and state): as long as the rows of the stratified run
+   stay non-negative (C18_euler_trajectory_nonneg gives conditions), every row summed over the copies of each compartment
+   is the row of the unstratified run started from the aggregated initial state *)
+Theorem C03_euler_rows_aggregate_all_partial :
+  forall (O : NumOps) (T : NumTheory O) t0 t1 h comps inf ops (m : model) (s0 : strat) (m' : model) (b b' : backend),
+    build_ok t0 t1 h comps inf ops = Some m -> NoDup (m_comps m) ->
+    stratify_with m s0 = Ok m' ->
+    prepare_structural m = Ok b -> prepare_structural m' = Ok b' ->
+    NoDup (s_strata (normalise_strat s0)) -> s_strata (normalise_strat s0) <> [] ->
+    is_strain (s_kind (normalise_strat s0)) = false -> s_fadj (normalise_strat s0) = [] ->
+    s_mix (normalise_strat s0) = None -> s_iadj (normalise_strat s0) = [] ->
+    (forall f, In f (m_flows m) -> all_flow f) ->
+    forallb state_free (mix_exprs m) = true ->
+    forall (p : env O),
+    (forall t y, foi_domain O m p t y) -> (forall t y, foi_domain O m' p t y) ->
+    forall (hs tstart : F O) (y0' : list (F O)) (k : nat),
+      List.length y0' = List.length (m_comps m') ->
+      Forall (Forall (fun v => fle O T (f0 O) v))
+             (solve_fixed O (euler_step O) (fun t y => get_comp_rates O m' b' p t y) tstart hs y0' k) ->
+      map (agg O (copy_positions m s0 m')) (solve_fixed O (euler_step O) (fun t y => get_comp_rates O m' b' p t y) tstart hs y0' k)
+      = solve_fixed O (euler_step O) (fun t y => get_comp_rates O m b p t y) tstart hs (agg O (copy_positions m s0 m') y0') k.
+Proof. intros O T. exact (stratified_euler_rows_aggregate_all O T). Qed.
+Print Assumptions C03_euler_rows_aggregate_all_partial.
 
 (* non-vacuity: S, I, R with I split in two copies (positions 1 and 2), the second half as infectious in both layouts *)
 Example C03_foi_nonvacuous :
